@@ -165,7 +165,9 @@ fn placeholder_spawner() -> Spawner {
 
 type S = Store<u64, u64, IdHasher, SProps>;
 
-fn mk_store() -> (S, Arc<HEngine>) {
+/// The store is wrapped in `ManuallyDrop`: it must never be dropped (placeholder spawner), also not by the unwinding of a
+/// failed assertion when a counterexample is replayed natively.
+fn mk_store() -> (std::mem::ManuallyDrop<S>, Arc<HEngine>) {
     let engine = Arc::new(HEngine {
         answer: Cell::new(Answer::Miss),
         filter: Cell::new(0),
@@ -190,7 +192,7 @@ fn mk_store() -> (S, Arc<HEngine>) {
             load_throttle_switch: Default::default(),
         }),
     };
-    (store, engine)
+    (std::mem::ManuallyDrop::new(store), engine)
 }
 
 /// The KIND of the engine's answer is concrete per harness (a symbolic choice between `Ok(..)` and `Err(Error)` makes CBMC
